@@ -813,11 +813,24 @@ func genDisclosure(r *runner, rng *hx.Rng, thorough bool) {
 	}
 
 	keys := []int{1, 2, 3, 501, 502, 503, 601, 6, 507}
+	// what a field may ask for: the leaves, and elements of the two arrays
+	asks := []int{1, 2, 3, 501, 502, 503, 601, 6, 507, 1006, 2006, 3006, 1507, 2507}
 
 	val := func(g *hx.Rng, k int) Val {
 		switch {
 		case k == 6 || k == 507:
-			return Val{T: "a", S: 1 + g.Intn(3)}
+			n := 1 + g.Intn(4)
+			v := Val{T: "a", L: []Val{}}
+
+			for j := 0; j < n; j++ {
+				if g.Intn(4) == 0 {
+					v.L = append(v.L, str(g.Intn(3)))
+				} else {
+					v.L = append(v.L, num(int64(g.Intn(4))))
+				}
+			}
+
+			return v
 		case g.Intn(3) == 0:
 			return str(g.Intn(3))
 		default:
@@ -844,9 +857,15 @@ func genDisclosure(r *runner, rng *hx.Rng, thorough bool) {
 
 			nf := 1 + g.Intn(3)
 			for j := 0; j < nf; j++ {
-				f := Field{Paths: []int{keys[g.Intn(len(keys))]}}
+				f := Field{Paths: []int{asks[g.Intn(len(asks))]}}
 				if g.Intn(3) == 0 {
-					f.Paths = append(f.Paths, keys[g.Intn(len(keys))])
+					f.Paths = append(f.Paths, asks[g.Intn(len(asks))])
+				}
+
+				// one field does not name an array and one of its elements together (the order in which the streaming
+				// JSONPath evaluator reports the two is not modelled)
+				if len(f.Paths) == 2 && f.Paths[0]%1000 == f.Paths[1]%1000 && (f.Paths[0] >= 1000) != (f.Paths[1] >= 1000) {
+					f.Paths = f.Paths[:1]
 				}
 
 				switch g.Intn(5) {
